@@ -1,4 +1,5 @@
 import Autog.Model.Phase5
+import Autog.Lemmas.Reverse
 import Autog.Lemmas.BreakMergeChains
 import Autog.Lemmas.Frame
 /-! # C05 — edges attach to their end nodes; the arrow flag marks the target
@@ -183,5 +184,97 @@ theorem C05_ortho_router (ls : Rat) (g g' : G) (routes : List (Nat × List Nat))
       exact hp (by rw [pts_setPts_ne g e r.1 q hne]; exact he) hc) routes g g' h hnd hb).1
   intro r hr
   exact this r hr (hempty r hr) (hchain r hr)
+
+
+/-! ### the chains `mergeLongEdges` builds start at the upper end node of the merged edge and end at the lower one -/
+
+/-- `orderedNodes` reads the two ends of the edge and the layer / position of nodes: an update of other edge attributes leaves it alone -/
+theorem orderedNodes_modEdge_attr (g : G) (e : Nat) (f : Edge → Edge) (hs : ∀ ed, (f ed).src = ed.src) (hd : ∀ ed, (f ed).dst = ed.dst) :
+    orderedNodes (g.modEdge e f) e = orderedNodes g e := by
+  have h1 : ((g.modEdge e f).edge e).src = (g.edge e).src := by rw [G.edge_modEdge]; split <;> simp [hs]
+  have h2 : ((g.modEdge e f).edge e).dst = (g.edge e).dst := by rw [G.edge_modEdge]; split <;> simp [hd]
+  simp only [orderedNodes, G.layerOf, h1, h2]
+  rfl
+
+theorem head?_append_ne (l l2 : List Nat) (h : l ≠ []) : (l ++ l2).head? = l.head? := by
+  cases l with
+  | nil => exact absurd rfl h
+  | cons a t => rfl
+
+/-- the orientation step at the end of `reduceForward`: a chain from `a` to `b` is turned round exactly when the upper end is `b` -/
+theorem route_orient (L : List Nat) (a b u v : Nat) (hh : L.head? = some a) (hl : L.getLast? = some b)
+    (huv : (u = a ∧ v = b) ∨ (u = b ∧ v = a)) :
+    (if L.head? == some v && L.getLast? == some u then L.reverse else L).head? = some u ∧
+    (if L.head? == some v && L.getLast? == some u then L.reverse else L).getLast? = some v := by
+  rcases huv with ⟨rfl, rfl⟩ | ⟨rfl, rfl⟩
+  · by_cases hab : u = v
+    · subst hab
+      simp only [hh, hl, beq_self_eq_true, Bool.and_self, if_true, List.head?_reverse, List.getLast?_reverse, and_self]
+    · have hc : ¬ ((L.head? == some v && L.getLast? == some u) = true) := by
+        rw [hh, hl]
+        intro h
+        simp only [Bool.and_eq_true, beq_iff_eq, Option.some.injEq] at h
+        exact hab h.1
+      rw [if_neg hc]; exact ⟨hh, hl⟩
+  · simp only [hh, hl, beq_self_eq_true, Bool.and_self, if_true, List.head?_reverse, List.getLast?_reverse, and_self]
+
+/-- the chain `reduceForward` returns for edge `e`: its first node is the upper end (`orderedNodes.1`) and its last node the lower end
+    (`orderedNodes.2`) of the merged edge in the returned state — whatever the chain in between, for any fuel -/
+theorem C05_reduceForward_ends : ∀ (fuel : Nat) (s : MergeSt) (e : Nat) (ns : List Nat) (s' : MergeSt) (ns' : List Nat),
+    reduceForward fuel s e ns = .ok (s', ns') → ns.head? = some (s.g.edge e).src →
+    ns'.head? = some (orderedNodes s'.g e).1 ∧ ns'.getLast? = some (orderedNodes s'.g e).2
+  | 0, _, _, _, _, _, h, _ => by simp [reduceForward] at h
+  | fuel + 1, s, e, ns, s', ns', h, hh => by
+    have hne : ns ≠ [] := by intro h0; rw [h0] at hh; cases hh
+    unfold reduceForward at h
+    simp only at h
+    split at h
+    · -- the target is a helper node: follow its only out-edge
+      split at h
+      · rename_i f _
+        refine C05_reduceForward_ends fuel _ e _ s' ns' h ?_
+        simp only [G.edge_modEdge, G.modNode_edge]
+        rw [head?_append_ne _ _ hne, hh]
+        split <;> rfl
+      · cases h
+    · -- the target is a real node: the chain is complete
+      simp only [pure, Except.pure, Except.ok.injEq, Prod.mk.injEq] at h
+      obtain ⟨rfl, rfl⟩ := h
+      have hord : orderedNodes (s.g.modEdge e fun ed => { ed with ahs := ed.rev }) e = orderedNodes s.g e :=
+        orderedNodes_modEdge_attr s.g e _ (fun _ => rfl) (fun _ => rfl)
+      simp only [hord]
+      have hhead : (ns ++ [(s.g.edge e).dst]).head? = some (s.g.edge e).src := by
+        rw [head?_append_ne _ _ hne, hh]
+      have hlast : (ns ++ [(s.g.edge e).dst]).getLast? = some (s.g.edge e).dst := by simp
+      exact route_orient _ _ _ _ _ hhead hlast (C05_orderedNodes_ends s.g e)
+
+/-- **C05, route ends**: every route one iteration of `mergeLongEdges` adds — the two-node route of a short edge, or the chain
+    `reduceForward` collects for a long one — starts at the upper end node and ends at the lower end node of its edge as the edge
+    stands in the state after that iteration -/
+theorem C05_mergeStep_route_ends (acc acc' : MergeSt × List (Nat × List Nat)) (k : Nat) (h : mergeStep acc k = .ok acc') :
+    acc'.2 = acc.2 ∨ ∃ r, acc'.2 = acc.2 ++ [r] ∧ r.2.head? = some (orderedNodes acc'.1.g r.1).1 ∧
+      r.2.getLast? = some (orderedNodes acc'.1.g r.1).2 := by
+  unfold mergeStep at h
+  simp only at h
+  split at h
+  · simp only [pure, Except.pure, Except.ok.injEq] at h
+    subst h
+    refine Or.inr ⟨_, rfl, ?_⟩
+    have hord := orderedNodes_modEdge_attr acc.1.g (acc.1.arr.getD k 0) (fun ed => { ed with ahs := ed.rev }) (fun _ => rfl) (fun _ => rfl)
+    simp only [hord, List.head?_cons, List.getLast?_cons_cons, List.getLast?_singleton, and_self]
+  · split at h
+    · simp only [bind, Except.bind] at h
+      cases hr : reduceForward (acc.1.g.nodes.size + 2) acc.1 (acc.1.arr.getD k 0) [(acc.1.g.edge (acc.1.arr.getD k 0)).src] with
+      | error e => rw [hr] at h; cases h
+      | ok r =>
+        obtain ⟨s', ns'⟩ := r
+        rw [hr] at h
+        simp only [pure, Except.pure, Except.ok.injEq] at h
+        subst h
+        exact Or.inr ⟨_, rfl, C05_reduceForward_ends _ _ _ _ _ _ hr rfl⟩
+    · simp only [pure, Except.pure, Except.ok.injEq] at h
+      subst h; exact Or.inl rfl
+  · simp only [pure, Except.pure, Except.ok.injEq] at h
+    subst h; exact Or.inl rfl
 
 end Autog
